@@ -110,16 +110,16 @@ func (im *Image) Hash() uint64 {
 // Disk implements the disk.Disk interface of goose (Read, ReadTo, Write,
 // Size, Barrier, Close).
 type Disk struct {
-	img    *Image
-	Base   *Image // content when the disk was handed to the system
-	Trace  []Ev
-	Yield  bool // writes and barriers are scheduling points
+	img     *Image
+	Base    *Image // content when the disk was handed to the system
+	Trace   []Ev
+	Yield   bool // writes and barriers are scheduling points
 	NoTrace bool // do not record the trace (runs that need no crash images)
-	Hook   func(d *Disk, ev int, kind int)
-	Writes uint64
-	Reads  uint64
-	Barrs  uint64
-	dead   bool
+	Hook    func(d *Disk, ev int, kind int)
+	Writes  uint64
+	Reads   uint64
+	Barrs   uint64
+	dead    bool
 }
 
 // New returns a zeroed disk of the given size in blocks.
